@@ -4,6 +4,7 @@ CONSTANTS
     ImplicitDirMode755 = TRUE
     LinksCountOnSource = TRUE
     SymlinkSizeFromTarget = TRUE
+    MkdevSplit = TRUE
     MemoOnlyHidesAbsent = TRUE
     AttrOpsEverywhere = TRUE
 SPECIFICATION TraceSpec
